@@ -7,6 +7,7 @@ cd /repo
 [ -d $wt ] || git worktree add -q --detach $wt HEAD
 (cd $wt && git checkout -q -- . && git checkout -q --detach $(git -C /repo rev-parse HEAD))
 while read hash prop harness; do
+  [ -n "$ONLY" ] && [[ "$hash" != $ONLY ]] && continue
   [ -z "$hash" ] && continue
   echo "=== $hash $prop $harness : $(git log --format=%s -1 $hash)" >> $out
   if ! (cd $wt && git -C /repo diff $hash^ $hash | git apply -R 2>>$out); then echo "RESULT $hash cannot-reverse (later commits touch the same lines)" >> $out; (cd $wt && git checkout -q -- .); continue; fi
